@@ -504,12 +504,24 @@ impl Mp4Track {
             let first_sample_in_chunk = sample_id - (sample_id - first_sample) % samples_per_chunk;
 
             let mut sample_offset = chunk_offset;
-            for i in first_sample_in_chunk..sample_id {
-                sample_offset = sample_offset
-                    .checked_add(self.sample_size(i)? as u64)
+            let constant_size = self.trak.mdia.minf.stbl.stsz.sample_size;
+            if constant_size > 0 {
+                // All samples have the same size: no need to visit the earlier samples
+                // of the chunk one by one (their number comes from the file).
+                sample_offset = ((sample_id - first_sample_in_chunk) as u64)
+                    .checked_mul(constant_size as u64)
+                    .and_then(|n| n.checked_add(chunk_offset))
                     .ok_or(Error::InvalidData(
                         "attempt to calculate stbl sample offset with overflow",
                     ))?;
+            } else {
+                for i in first_sample_in_chunk..sample_id {
+                    sample_offset = sample_offset
+                        .checked_add(self.sample_size(i)? as u64)
+                        .ok_or(Error::InvalidData(
+                            "attempt to calculate stbl sample offset with overflow",
+                        ))?;
+                }
             }
 
             Ok(sample_offset)
